@@ -175,7 +175,7 @@ def build_inputs(tier):
         ctx = c.replace("{", "{{").replace("}", "}}").replace(HOLE, "{H}")
         cases.append(("random-ctx", ctx, mode, [xonshgen.gen_construct(r)]))
     # binding targets with Store context
-    for tctx in ["{H} = 1\n", "for {H} in y: pass\n", "with a as {H}: pass\n", "[i for {H} in y]\n", "{H}, b = 1, 2\n", "for a, {H} in y: pass\n", "[{H}, *c] = y\n", "with a as ({H}, b): pass\n", "({H}) = 2\n" if False else "{H} = b = 3\n"]:
+    for tctx in ["{H} = 1\n", "for {H} in y: pass\n", "with a as {H}: pass\n", "[i for {H} in y]\n", "{H}, b = 1, 2\n", "for a, {H} in y: pass\n", "[{H}, *c] = y\n", "with a as ({H}, b): pass\n", "{H} = b = 3\n", "({H}) = 2\n", "for ({H}) in xs: pass\n", "with f as ({H}): pass\n", "[0 for ({H}) in xs]\n", "[{H}] = y\n", "({H}, b) = y\n", "*{H}, b = y\n" if False else "a, ({H}) = y\n"]:
         for name in ["$X", "${'a'+b}", "${n}", "$HOME"]:
             t = "__xonsh__.env['%s']" % name[1:] if name[1] != "{" else "__xonsh__.env[str(%s)]" % name[2:-1]
             cases.append(("target", tctx, "exec", [("target", name, t, "primary")]))
